@@ -34,7 +34,7 @@ PROBES = ["crash_points_enumerated", "crash_inside_copy", "crash_inside_record_w
           "crash_torn_write", "manager_refused_after_crash", "manager_listed_after_crash", "manager_not_listed_after_crash",
           "preexisting_backup_survived", "restore_exact_checked", "restore_after_delete", "restore_after_rmdir",
           "restore_tasks_nonempty_writeset", "restore_tasks_checked", "remodel_twice_checked",
-          "remodel_modified_between", "second_backup_refused", "isolation_checked", "io_error_injected", "dispatch_reads_backup_checked"]
+          "remodel_modified_between", "second_backup_refused", "isolation_checked", "io_error_injected", "dispatch_reads_backup_checked", "same_manager_retry_after_io_error"]
 RULE = ("Each run is one generated scenario (data tree of 2-8 files in 1-3 directory levels, BIDS-like names with and "
         "without a task entity in both spellings, sizes 0 B-200 kB, optional pre-existing backup, file selection as "
         "run_remodel_backup does it).  Runs with index%3==0 are crash scenarios: every file-system step of one backup "
@@ -120,6 +120,9 @@ def _gen_tree(g):
         if g.chance(0.4):
             files.append({"path": "/".join(dirs + ["%s_%s%s_beh.tsv" % (sub, spell, g.pick(TASKS))]), "kind": "other",
                           "seed": g.randrange(10 ** 6), "size": g.pick([0, 10, 500, 70000])})
+    if g.chance(0.25):
+        files.append({"path": "sub-01/task-go_pilot/sub-01_%srest_events.tsv" % spell, "kind": "events",
+                      "seed": g.randrange(10 ** 6), "size": 200})
     if g.chance(0.5):
         files.append({"path": "task-go_events.json", "kind": "other", "seed": g.randrange(10 ** 6), "size": g.pick([0, 2, 300])})
     if g.chance(0.3):
@@ -171,14 +174,14 @@ def generate(run_index, seed, tier):
           "bufsize": g.pick([4096, 65536, 1 << 20]), "permute": g.chance(0.4), "sched_seed": g.randrange(1 << 30),
           "t0": 1.7e9 + g.randrange(10 ** 6)}
     sc["pre_backup"] = g.chance(0.35)
-    names = ["default_back", "bk1"]
+    names = g.pick([["default_back", "bk1"], ["default_back", "bk1"], ["task-go_orig", "bk1"]])
     if run_index % 3 == 0:
         sc["mode"] = "crash"
         ops = []
         if g.chance(0.3):
             ops.append({"op": "modify", "path": g.pick(sc["tree"])["path"], "how": g.pick(["append", "truncate", "rewrite"])})
-        kinds = ["kill", "torn"] + (["eio", "enospc"] if tier == "thorough" else [])
-        ops.append({"op": "backup", "name": g.pick(names), "via": g.pick(["cli", "cli", "api"]), "sel": _gen_selection(g),
+        kinds = ["kill", "torn", "eio-retry"] + (["eio", "enospc"] if tier == "thorough" else [])
+        ops.append({"op": "backup", "name": g.pick(names), "via": g.pick(["cli", "api", "api"]), "sel": _gen_selection(g),
                     "crash": "all", "crash_kinds": kinds})
         sc["ops"] = ops
         return sc
@@ -364,6 +367,38 @@ def _backup_fn(world, o):
                 return True
             man = W["bm"].BackupManager(root)
             return man.create_backup(_selected_files(W, root, o), backup_name=o["name"])
+    return fn
+
+
+def _backup_retry_fn(world, o, before):
+    """API use on one long-lived manager: create_backup, and after an OSError (disk full) the same call again on the SAME
+    object.  Returns ('retried', [damaged recorded files as that manager lists them], second return value)."""
+    W, root = world.W, world.root
+
+    def fn():
+        man = W["bm"].BackupManager(root)
+        files = _selected_files(W, root, o)
+        try:
+            r = man.create_backup(files, backup_name=o["name"])
+            return ("first-attempt-finished", [], r)
+        except OSError:
+            pass
+        r2 = man.create_backup(files, backup_name=o["name"])
+        rec = man.get_backup(o["name"])
+        bad = []
+        if rec is not None:
+            broot = os.path.join(root, "derivatives/remodel/backups", o["name"], "backup_root")
+            for key in rec:
+                p = os.path.join(broot, key)
+                try:
+                    with real_open(p, "rb") as f:
+                        data = f.read()
+                except OSError:
+                    bad.append((key, "missing"))
+                    continue
+                if before.get(key) != data:
+                    bad.append((key, "%d bytes, data file has %s" % (len(data), None if before.get(key) is None else len(before[key]))))
+        return ("retried", bad, r2)
     return fn
 
 
@@ -823,14 +858,31 @@ def _crash_sweep(world, o):
             faults = [{"kind": "kill", "step": c, "torn": None}]
         elif kind == "torn":
             faults = [{"kind": "kill", "step": c, "torn": 0.5}]
+        elif kind == "eio-retry":
+            if o["via"] != "api":
+                continue
+            faults = [{"kind": "ioerr", "step": c, "errno": 28}]
         elif kind == "eio":
             faults = [{"kind": "ioerr", "step": c, "errno": 5}]
         else:
             faults = [{"kind": "ioerr", "step": c, "errno": 28}]
         n_torn0 = world.fs.counts.get("torn_prefix_delivered", 0)
         n_io0 = world.fs.counts.get("io_error_raised", 0)
-        p = world.run_proc("backup-crash", _backup_fn(world, o), faults)
+        p = world.run_proc("backup-crash", _backup_retry_fn(world, o, before) if kind == "eio-retry" else _backup_fn(world, o), faults)
         interrupted = p.state in ("killed", "failed")
+        if kind == "eio-retry":
+            if world.fs.counts.get("io_error_raised", 0) == n_io0:
+                reset()
+                continue
+            world.probe("io_error_injected")
+            world.probe("same_manager_retry_after_io_error")
+            if p.state == "done" and p.result[0] == "retried":
+                bad = p.result[1]
+                if bad:
+                    world.viol("crash-consistency", "create_backup hit an I/O error at step %d, was called again on the SAME BackupManager "
+                               "and returned %r; that manager now lists backup %r with damaged recorded files: %s"
+                               % (c, p.result[2], name, bad[:3]), "same-manager-lists-damaged-backup-after-retry")
+                interrupted = True
         if kind == "torn" and world.fs.counts.get("torn_prefix_delivered", 0) == n_torn0 and isinstance(o["crash"], str):
             reset()
             continue      # the pending step was not a write: identical to the plain kill at this step
